@@ -814,10 +814,10 @@ fn gen_mixed(rng: &mut Rng, tech: &str, arch: &str, os: &str) -> Option<String> 
     let mut g: u32 = 0;
     let mut exp: Vec<Exp> = vec![];
     let mut leftover_used = false;
-    // ARM/ARM64: the frame-pointer unwinder marks `r11`/`x29` valid, `callee_forwarded_regs` looks
-    // for `fp` — a CFI frame above a frame-pointer frame loses the frame pointer (known finding)
+    // (ARM/ARM64: the frame-pointer unwinder marks `r11`/`x29` valid; since the F28 fix
+    // `callee_forwarded_regs` resolves the alias, so a CFI frame above a frame-pointer frame
+    // forwards the frame pointer like everywhere else)
     let arm_like = matches!(arch, "arm" | "arm64" | "arm64old");
-    let mut prev_tech = "context";
 
     for i in 0..depth {
         let last = i + 1 == depth;
@@ -876,7 +876,6 @@ fn gen_mixed(rng: &mut Rng, tech: &str, arch: &str, os: &str) -> Option<String> 
                 put(&mut words, s_new - 1, Word::Val(ret | pac));
                 regs_out = known.clone();
                 let mut fpn = match fp {
-                    _ if arm_like && prev_tech == "fp" => Fp::Invalid,
                     Fp::Live(x) if x < s_new => Fp::Stale(Word::Addr(x)),
                     o => o,
                 };
@@ -1068,7 +1067,6 @@ fn gen_mixed(rng: &mut Rng, tech: &str, arch: &str, os: &str) -> Option<String> 
             exp.last_mut().unwrap().tech = Some(format!("{step_tech}@"));
         }
         known = regs_out;
-        prev_tech = step_tech;
         cur = t_idx;
         ip = ret;
         s = s_new;
